@@ -111,6 +111,10 @@ class FileIndex:
                     elif dd == 0 and x.k == "id" and seen_for and x.s not in ("for",):
                         name = x.s   # last path segment wins
                 stack.append(("impl", name)); i = j + 1; continue
+            if t[i].k == "id" and s == "trait" and i + 1 < n and t[i + 1].k == "id" and not any(x and x[0] == "fn" for x in stack):
+                j = i + 2
+                while j < n and t[j].s != "{": j += 1
+                stack.append(("impl", t[i + 1].s)); i = j + 1; continue
             if t[i].k == "id" and s == "mod" and i + 2 < n and t[i + 2].s == "{":
                 stack.append(("mod", t[i + 1].s)); i += 3; continue
             if t[i].k == "id" and s == "fn" and i + 1 < n and t[i + 1].k == "id":
